@@ -96,6 +96,9 @@ func (r *FakeRelay) fault(op, sid string) RelayFault {
 func sidKey(b []byte) string { return hex.EncodeToString(b) }
 
 func (r *FakeRelay) NewCipherBox(ctx context.Context, in *hashmailrpc.CipherBoxAuth, _ ...grpc.CallOption) (*hashmailrpc.CipherInitResp, error) {
+	if err := ctx.Err(); err != nil {
+		return nil, status.FromContextError(err).Err()
+	}
 	r.mu.Lock()
 	defer r.mu.Unlock()
 	if r.down {
@@ -111,6 +114,9 @@ func (r *FakeRelay) NewCipherBox(ctx context.Context, in *hashmailrpc.CipherBoxA
 }
 
 func (r *FakeRelay) DelCipherBox(ctx context.Context, in *hashmailrpc.CipherBoxAuth, _ ...grpc.CallOption) (*hashmailrpc.DelCipherBoxResp, error) {
+	if err := ctx.Err(); err != nil {
+		return nil, status.FromContextError(err).Err() // as a gRPC client does for a dead context
+	}
 	r.mu.Lock()
 	defer r.mu.Unlock()
 	k := sidKey(in.Desc.StreamId)
@@ -299,6 +305,9 @@ func (s *fakeRecvStream) Recv() (*hashmailrpc.CipherBox, error) {
 }
 
 func (r *FakeRelay) RecvStream(ctx context.Context, in *hashmailrpc.CipherBoxDesc, _ ...grpc.CallOption) (hashmailrpc.HashMail_RecvStreamClient, error) {
+	if err := ctx.Err(); err != nil {
+		return nil, status.FromContextError(err).Err()
+	}
 	r.mu.Lock()
 	defer r.mu.Unlock()
 	if r.down {
